@@ -168,3 +168,32 @@ func SortMembers(a []byte) (out []byte, ok bool) {
 	out, err := stdjson.Marshal(x)
 	return out, err == nil
 }
+
+// DocKind names the kind of a JSON text by its first byte (class signatures keep the kind, not the text).
+func DocKind(doc string) string {
+	for i := 0; i < len(doc); i++ {
+		switch c := doc[i]; {
+		case c == ' ' || c == '\n' || c == '\t' || c == '\r':
+			continue
+		case c == '{':
+			if doc == "{}" {
+				return "empty object"
+			}
+			return "object"
+		case c == '[':
+			if doc == "[]" {
+				return "empty array"
+			}
+			return "array"
+		case c == '"':
+			return "string"
+		case c == 'n':
+			return "null"
+		case c == 't' || c == 'f':
+			return "bool"
+		default:
+			return "number"
+		}
+	}
+	return "empty"
+}
